@@ -5,5 +5,5 @@ THEOREMS = []
 TRUSTED = []
 ASSUMPTIONS = []
 LEVEL_TEXT = "Lean theorems on the bit-exact mpf model: format invariant preserved over histories, exact functions exact, mpf_mul/add/sub/div/sqrt error < 2^(2-p) relative and exact when representable. The driver also evaluates the property's own predicate exactly in rationals on the implementation's output."
-LEVEL_NOTE = "mpf_get_str accuracy is proved under side conditions (`adequate`: the binary64 size estimates of get_str.c; its first conjunct is known to fail for digit counts above 2*10^8, i.e. operands of ~100 MB) that the driver evaluates on every line; the accepted input language of mpf_set_str is checked by correspondence (parse_sound is proved, no parse_iff); mpf_pow_ui is not named by the property."
+LEVEL_NOTE = "mpf_get_str accuracy is proved under side conditions (`adequate`: the binary64 size estimates of get_str.c; its first conjunct is known to fail for digit counts above 2*10^8, i.e. operands of ~100 MB) that the driver evaluates on every line; the accepted input language of mpf_set_str is a declarative left-to-right grammar proved equal to the scanner model (parse_iff, parse_value) and tied to the C by accept/reject comparison on grammar-generated and mutated strings; the grammar is an executable recogniser, not an inductive predicate; mpf_pow_ui is not named by the property."
 PLACEHOLDER = True
